@@ -265,24 +265,25 @@ def checkOperation (d : Device) (op : Op) : Bool :=
   | .ijmp | .icall | .ldd | .std | .lds | .sts | .push | .pop => d.allow .tiny1x
   | _ => true
 
+/-- the closure of `check_instruction` applied to every operand of ld/st/ldd/std -/
+def argAllowed (d : Device) : IOp → Bool
+  | .index i =>
+    let pd : Reg16 × Bool := match i with
+      | .none r => (r, false) | .postInc r => (r, false) | .preDec r => (r, false)
+      | .postIncE r _ => (r, true)
+    (match pd.1 with
+      | .x => d.allow .noXreg
+      | .y => d.allow .noYreg
+      | .z => true) && (!pd.2 || d.allow .tiny1x)
+  | _ => true
+
 /-- `Device::check_instruction` -/
 def checkInstruction (d : Device) (op : Op) (args : List IOp) : Bool :=
   if !checkOperation d op then false else
   match op with
   | .lpm => if !args.isEmpty then d.allow .noLpmX else true
   | .elpm => if !args.isEmpty then d.allow .noElpmX else true
-  | .ld | .st | .ldd | .std =>
-    args.all fun a =>
-      match a with
-      | .index i =>
-        let (ptr, disp) := match i with
-          | .none r => (r, false) | .postInc r => (r, false) | .preDec r => (r, false)
-          | .postIncE r _ => (r, true)
-        (match ptr with
-          | .x => d.allow .noXreg
-          | .y => d.allow .noYreg
-          | .z => true) && (!disp || d.allow .tiny1x)
-      | _ => true
+  | .ld | .st | .ldd | .std => args.all (argAllowed d)
   | _ => true
 
 def regOfName (s : Str) : Option Nat :=
